@@ -83,6 +83,7 @@ FIRST_MISSED = {
     "C20-E": "attributes and declarations also built as nodes (new_attribute_node + append_attribute_node / any_append) in the stepwise programs",
     "C20-F": "75 'scope exit' documents (a binding made or shadowed on an inner element must be gone again behind it) in several spellings, for C20 and C02 / C03 / C17",
     "C20-O": "MCBuild!SetAbn and the random construction programs set declarations and attributes strictly in storage order (all declarations first): PrevAbn now means the previous one of the SAME kind, so an attribute may be set before a prefix is declared on the same element (TLC: Confluent still holds over all such orders)",
+    "C10-O": "the identical change C10-C had been reported by exactly one random input and was no longer reported: deterministic family - a prefix spelled like a generated one (n0, n1) declared for another namespace 1 to 3 levels below the repaired node, a name in an undeclared namespace underneath (element / attribute)",
 }
 
 
